@@ -1128,6 +1128,9 @@ class Interp:
     def ex_Dict(self, e, env, mp):
         if not e.keys:
             return {}
+        if all(isinstance(k, ast.Constant) and isinstance(k.value, str) for k in e.keys):
+            # a literal with constant string keys (keyword arguments passed on as a dict): a Python dict of values
+            return {k.value: self.eval(v, env, mp) for k, v in zip(e.keys, e.values)}
         raise Unsupported("dict literal")
 
     def ex_JoinedStr(self, e, env, mp):
